@@ -26,7 +26,7 @@ def body(c):
         raise MachineryError("too few AWQ cases")
     extra = [("v2", 16, 256), ("v2", 4, 320), ("v1", 7, 32), ("v1r", 6, 40)] if c.quick else \
             [("v2", 16, 256), ("v2", 4, 320), ("v2", 64, 512), ("v2", 20, 448), ("v1", 7, 32), ("v1r", 6, 40), ("v1r", 33, 128), ("v1", 64, 512)]
-    conv = [(4, 128), (8, 256), (12, 384)] if c.quick else [(4, 128), (8, 256), (12, 384), (64, 512), (32, 1024), (5, 128)]
+    conv = [(4, 128), (8, 256), (12, 384)] if c.quick else [(4, 128), (8, 256), (12, 384), (64, 512), (32, 1024), (20, 256)]
     tr = c.harness("h_awq.py", {"cases": [{"layout": x["layout"], "N": x["N"], "K": x["K"]} for x in cases], "extra_shapes": extra, "convert": conv, "seed": c.seed})["traces"]
     consts = {"Shapes2": "{}", "Shapes1": "{}", "Dev_C15_QBitsTensor": "TRUE" if devs["Dev_C15_QBitsTensor"] else "FALSE"}
     res = c.validate("Trace_AWQ", tr, chunk=6, constants=consts)
